@@ -17,13 +17,33 @@ MAX_BLOCKS = 6000
 
 
 def load_vocabulary():
-    names = set()
+    """(function names, {(parent readable name, sorted capture names)} of the closures the rules know as closures)"""
+    names, closures = set(), set()
     with open(os.path.join(HERE, "vocabulary.txt")) as f:
         for line in f:
             line = line.strip()
-            if line and not line.startswith("#"):
+            if not line or line.startswith("#"):
+                continue
+            if line.startswith("closure "):
+                _, parent, caps = line.split(" ", 2)
+                closures.add((parent, caps[len("caps="):]))
+            else:
                 names.add(line)
-    return names
+    return names, closures
+
+
+def closure_key(F, f):
+    """how a closure is recognised across edits: the readable name of the function it is written in and the names of the
+    variables it captures (its index among the parent's closures shifts whenever a closure is added before it)"""
+    parent = f.parent
+    for _ in range(4):
+        pf = F.fns.get(parent)
+        if pf is None or pf.kind != "Closure":
+            break
+        parent = pf.parent
+    pn = F.fns[parent].nice if parent in F.fns else (parent or "?")
+    caps = sorted({d["n"] for d in f.raw["body"].get("dbg", []) if d["p"]["l"] == 1 and d["p"]["p"]})
+    return (pn, ",".join(caps))
 
 
 def _shift(x, lb, pb):
@@ -85,7 +105,18 @@ def inline_call(caller_raw, bi, callee_fn):
     sp = t["sp"]
     # arguments -> parameter locals
     blk = body["blocks"][bi]
-    for i, a in enumerate(t["args"]):
+    args = list(t["args"])
+    if callee_fn.kind == "Closure":
+        # rust-call convention: (closure or reference to it, tuple of the arguments); the body takes the tuple spread
+        env, tup = args[0], args[1] if len(args) > 1 else None
+        args = [env]
+        for k in range(2, cb["argc"] + 1):
+            pl = cb["locals"][k]
+            place = (tup or {}).get("m") or (tup or {}).get("c")
+            if place is None:
+                raise ValueError("closure argument tuple is not a place")
+            args.append({"c": {"l": place["l"], "p": list(place["p"]) + [{"f": k - 2, "ty": pl["ty"]["s"]}]}})
+    for i, a in enumerate(args):
         pl = cb["locals"][i + 1]
         blk["stmts"].append({"s": "assign", "lhs": {"l": lb + i + 1, "p": []}, "rv": {"r": "use", "a": a},
                              "lty": pl["ty"]["t"], "sp": sp, "inl_arg": helper})
@@ -108,9 +139,13 @@ def inline_call(caller_raw, bi, callee_fn):
 
 def inline_unknown_helpers(F):
     """mutates F.fns in place; returns {helper path: set(caller paths it was inlined into, transitively)}"""
-    vocab = load_vocabulary()
+    vocab, known_closures = load_vocabulary()
     local = {p: f for p, f in F.fns.items() if f.kind != "Closure"}
     unknown = {p for p, f in local.items() if f.nice not in vocab}
+    # closures the rules do not know, when the enclosing code calls them directly (a local helper written as a closure)
+    for p, f in F.fns.items():
+        if f.kind == "Closure" and closure_key(F, f) not in known_closures and f.raw["body"]["argc"] >= 1:
+            unknown.add(p)
     if not unknown:
         return {}
     # helper -> helpers it calls
